@@ -24,6 +24,12 @@ class FuncInfo:
         a = self.node.args
         return [x.arg for x in a.posonlyargs + a.args]
 
+    def rebinds(self, name):
+        """True if the function body binds `name` anew (assignment, loop target, with-as, ...)."""
+        import ast as _ast
+        return any(isinstance(n, _ast.Name) and n.id == name and
+                   isinstance(n.ctx, (_ast.Store, _ast.Del)) for n in _ast.walk(self.node))
+
     def defaults(self):
         """param name -> default expr node"""
         a = self.node.args
